@@ -49,6 +49,23 @@ def build_case(rng, tier, kind):
             sts.append({"k": "delete", "table": name, "where": [[(("col", "", "a"), "=", rng.randrange(n))]]})
         sts.append(g.insert(name, nrows=rng.randint(1, 4)))
         dump_every = 1
+    elif kind == "manytables":
+        # seven or more tables (the page table itself has split: its root is an internal node), then ONE table grows
+        # until its root moves (the catalog row of that table is rewritten in a leaf below that root), then
+        # statements on other tables follow
+        g = hist.Gen(rng, 12)
+        sts = []
+        for i in range(rng.randint(7, 11)):
+            sts.append(g.create(cols=[("a", "int", 0), ("b", "varchar", 20)]))
+            if rng.random() < 0.4:
+                sts.append(g.insert(nrows=1))
+        names = sorted(g.tables)
+        big = rng.choice(names)
+        sts.append({"k": "insert", "table": big, "cols": [], "rows": [[i, "r%d" % i] for i in range(rng.randint(10, 22))]})
+        for _ in range(rng.randint(1, 4)):
+            sts.append(g.insert(rng.choice(names), nrows=rng.randint(1, 2)))
+        sts.append(g.update(big))
+        dump_every = 4
     elif kind == "catalog":
         # many tables: the catalog trees split and their roots move
         g = hist.Gen(rng, 60)
@@ -124,8 +141,8 @@ def corpus():
 
 
 def generate(rng, tier):
-    plan = [("deep", 1), ("small", 24), ("split", 12), ("reread", 6), ("catalog", 4)] if tier == "quick" else \
-           [("deep", 1), ("small", 150), ("split", 60), ("reread", 40), ("catalog", 20), ("large", 3)]
+    plan = [("deep", 1), ("small", 24), ("split", 12), ("reread", 6), ("manytables", 3), ("catalog", 4)] if tier == "quick" else \
+           [("deep", 1), ("small", 150), ("split", 60), ("reread", 40), ("manytables", 20), ("catalog", 20), ("large", 3)]
     cases = corpus()
     for kind, n in plan:
         for _ in range(n):
